@@ -28,7 +28,9 @@ import (
 	"net/url"
 	"strconv"
 	"strings"
+	"sync"
 	"testing"
+	"testing/iotest"
 	"time"
 
 	"github.com/AdguardTeam/AdGuardDNS/internal/dnsserver"
@@ -62,6 +64,13 @@ func vc01Env(format string, a ...any) error { return &vc01Timeout{err: fmt.Error
 
 func vc01SockHandler() dnsserver.Handler {
 	return dnsserver.HandlerFunc(func(ctx context.Context, rw dnsserver.ResponseWriter, req *dns.Msg) error {
+		// Like the handlers of the real stack (dnssvc), depend on the server and
+		// request information and on the writer's addresses.
+		si, ri := dnsserver.MustServerInfoFromContext(ctx), dnsserver.MustRequestInfoFromContext(ctx)
+		if si.Proto == dnsserver.ProtoInvalid || ri.StartTime.IsZero() || rw.LocalAddr() == nil || rw.RemoteAddr() == nil {
+			panic(fmt.Sprintf("vc01: incomplete request context: %+v %+v", si, ri))
+		}
+
 		resp, mode := ref.Ref(req)
 		switch mode {
 		case ref.ModeError:
@@ -74,8 +83,65 @@ func vc01SockHandler() dnsserver.Handler {
 	})
 }
 
+// vc01Poison is a Disposer that, like the production one (dnsmsg.Cloner), takes
+// the message apart: whoever still uses a disposed response sends garbage.
+type vc01Poison struct{}
+
+func (vc01Poison) Dispose(resp *dns.Msg) {
+	if resp == nil {
+		return
+	}
+
+	resp.Id ^= 0xa5a5
+	resp.Rcode = 15
+	resp.Question, resp.Answer, resp.Ns, resp.Extra = nil, nil, nil, nil
+}
+
+// vc01Metrics is a MetricsListener that, like the production one, reads the
+// request and the response it is given, and records recovered panics.
+type vc01Metrics struct {
+	dnsserver.EmptyMetricsListener
+
+	mu   sync.Mutex
+	errs []string
+}
+
+func (m *vc01Metrics) note(format string, a ...any) {
+	m.mu.Lock()
+	defer m.mu.Unlock()
+
+	if len(m.errs) < 8 {
+		m.errs = append(m.errs, fmt.Sprintf(format, a...))
+	}
+}
+
+func (m *vc01Metrics) OnRequest(_ context.Context, info *dnsserver.QueryInfo, rw dnsserver.ResponseWriter) {
+	switch {
+	case info == nil || info.Request == nil || rw == nil:
+		m.note("OnRequest without request or writer: %+v", info)
+	case info.Response != nil && (info.Response.Id != info.Request.Id || !info.Response.Response):
+		m.note("OnRequest was given response id %d qr=%t for request id %d (disposed or foreign message)", info.Response.Id, info.Response.Response, info.Request.Id)
+	case info.Response != nil && len(info.Request.Question) > 0 && (len(info.Response.Question) != 1 || info.Response.Question[0] != info.Request.Question[0]):
+		m.note("OnRequest was given response question %v for request question %v", info.Response.Question, info.Request.Question)
+	}
+}
+
+func (m *vc01Metrics) OnPanic(_ context.Context, v any) {
+	m.note("recovered panic in the server: %v", v)
+}
+
+func (m *vc01Metrics) take() (errs []string) {
+	m.mu.Lock()
+	defer m.mu.Unlock()
+
+	errs, m.errs = m.errs, nil
+
+	return errs
+}
+
 // vc01Net is the process-wide fixture.
 type vc01Net struct {
+	metrics          *vc01Metrics
 	udpAddr, tcpAddr string
 	dotAddr          string
 	tlsClient        *tls.Config
@@ -92,68 +158,69 @@ type vc01Net struct {
 }
 
 func vc01Start(t *testing.T) *vc01Net {
-	n := &vc01Net{}
+	n := &vc01Net{metrics: &vc01Metrics{}}
 	h := vc01SockHandler()
 	fail := func(what string, err error) {
 		fmt.Println("VERIF-INCONCLUSIVE: cannot start fixture:", what, err)
 		t.FailNow()
 	}
 
-	// Plain DNS and DNSCrypt bind a UDP port and then the same TCP port, which
-	// another process on this shared machine may hold: retry instead of using
-	// the require-based helpers (configuration identical to
-	// dnsservertest.RunDNSServer / RunDNSCryptServer).
-	var err error
-	for i := 0; ; i++ {
-		srv := dnsserver.NewServerDNS(dnsserver.ConfigDNS{
-			ConfigBase:     dnsserver.ConfigBase{Name: "test", Addr: "127.0.0.1:0", Handler: h},
-			MaxUDPRespSize: dns.MaxMsgSize,
-		})
-		if err = srv.Start(context.Background()); err == nil {
-			t.Cleanup(func() { _ = srv.Shutdown(context.Background()) })
-			n.tcpAddr, n.udpAddr = srv.LocalTCPAddr().String(), srv.LocalUDPAddr().String()
-
-			break
-		}
-
-		if i == 20 {
-			fail("dns", err)
+	// Configuration as in the dnsservertest.Run*Server helpers, plus what the
+	// real stack (dnssvc) always sets: a recycling disposer, a metrics listener
+	// that reads what it is given, request contexts with a deadline.  Servers
+	// are started here rather than through the require-based helpers, because
+	// plain DNS and DNSCrypt bind a UDP port and then the same TCP port, which
+	// another process on this shared machine may hold: retry.
+	base := func(network dnsserver.Network) dnsserver.ConfigBase {
+		return dnsserver.ConfigBase{
+			Name: "test", Addr: "127.0.0.1:0", Handler: h, Network: network,
+			Disposer: vc01Poison{}, Metrics: n.metrics, RequestContext: dnsserver.NewTimeoutContextConstructor(time.Minute),
 		}
 	}
+
+	start := func(what string, mk func() dnsserver.Server) dnsserver.Server {
+		for i := 0; ; i++ {
+			srv := mk()
+			err := srv.Start(context.Background())
+			if err == nil {
+				t.Cleanup(func() { _ = srv.Shutdown(context.Background()) })
+
+				return srv
+			}
+
+			if i == 20 {
+				fail(what, err)
+			}
+		}
+	}
+
+	srv := start("dns", func() dnsserver.Server {
+		return dnsserver.NewServerDNS(dnsserver.ConfigDNS{ConfigBase: base(dnsserver.NetworkAny), MaxUDPRespSize: dns.MaxMsgSize})
+	})
+	n.tcpAddr, n.udpAddr = srv.LocalTCPAddr().String(), srv.LocalUDPAddr().String()
 
 	tlsConf := dnsservertest.CreateServerTLSConfig("example.org")
 	n.tlsClient = tlsConf.Clone()
-	n.dotAddr = dnsservertest.RunTLSServer(t, h, tlsConf.Clone()).String()
+	n.dotAddr = start("dot", func() dnsserver.Server {
+		return dnsserver.NewServerTLS(dnsserver.ConfigTLS{ConfigDNS: dnsserver.ConfigDNS{ConfigBase: base(dnsserver.NetworkAny)}, TLSConfig: tlsConf.Clone()})
+	}).LocalTCPAddr().String()
 
-	doh, err := dnsservertest.RunLocalHTTPSServer(h, tlsConf.Clone(), nil)
-	if err != nil {
-		doh, err = dnsservertest.RunLocalHTTPSServer(h, tlsConf.Clone(), nil)
-	}
+	doh := start("doh", func() dnsserver.Server {
+		def, h3 := tlsConf.Clone(), tlsConf.Clone()
+		def.NextProtos, h3.NextProtos = dnsserver.NextProtoDoH, dnsserver.NextProtoDoH3
 
-	if err != nil {
-		fail("doh", err)
-	}
-
-	t.Cleanup(func() { _ = doh.Shutdown(context.Background()) })
+		return dnsserver.NewServerHTTPS(dnsserver.ConfigHTTPS{ConfigBase: base(dnsserver.NetworkAny), TLSConfDefault: def, TLSConfH3: h3})
+	})
 	n.dohAddr, n.doh3Addr = doh.LocalTCPAddr(), doh.LocalUDPAddr()
-
-	dohPlain, err := dnsservertest.RunLocalHTTPSServer(h, nil, nil)
-	if err != nil {
-		fail("doh-plain", err)
-	}
-
-	t.Cleanup(func() { _ = dohPlain.Shutdown(context.Background()) })
-	n.dohPlainAddr = dohPlain.LocalTCPAddr()
+	n.dohPlainAddr = start("doh-plain", func() dnsserver.Server {
+		return dnsserver.NewServerHTTPS(dnsserver.ConfigHTTPS{ConfigBase: base(dnsserver.NetworkTCP)})
+	}).LocalTCPAddr()
 
 	n.doqTLS = tlsConf.Clone()
 	n.doqTLS.NextProtos = dnsserver.NextProtoDoQ
-	doq, qaddr, err := dnsservertest.RunLocalQUICServer(h, n.doqTLS.Clone())
-	if err != nil {
-		fail("doq", err)
-	}
-
-	t.Cleanup(func() { _ = doq.Shutdown(context.Background()) })
-	n.doqAddr = qaddr.String()
+	n.doqAddr = start("doq", func() dnsserver.Server {
+		return dnsserver.NewServerQUIC(dnsserver.ConfigQUIC{ConfigBase: base(dnsserver.NetworkAny), TLSConfig: n.doqTLS.Clone()})
+	}).LocalUDPAddr().String()
 
 	n.crypt = &dnsservertest.TestDNSCryptServer{ProviderName: "example.org"}
 	rc, err := dnscrypt.GenerateResolverConfig(n.crypt.ProviderName, nil)
@@ -172,24 +239,10 @@ func vc01Start(t *testing.T) *vc01Net {
 	}
 
 	n.crypt.ResolverPk = ed25519.PrivateKey(sk).Public().(ed25519.PublicKey)
-	for i := 0; ; i++ {
-		n.crypt.Srv = dnsserver.NewServerDNSCrypt(dnsserver.ConfigDNSCrypt{
-			ConfigBase:           dnsserver.ConfigBase{Name: "test", Addr: "127.0.0.1:0", Handler: h},
-			DNSCryptProviderName: n.crypt.ProviderName,
-			DNSCryptResolverCert: cert,
-		})
-		if err = n.crypt.Srv.Start(context.Background()); err == nil {
-			cs := n.crypt.Srv
-			t.Cleanup(func() { _ = cs.Shutdown(context.Background()) })
-			n.crypt.ServerAddr = cs.LocalUDPAddr().String()
-
-			break
-		}
-
-		if i == 20 {
-			fail("dnscrypt", err)
-		}
-	}
+	n.crypt.Srv = start("dnscrypt", func() dnsserver.Server {
+		return dnsserver.NewServerDNSCrypt(dnsserver.ConfigDNSCrypt{ConfigBase: base(dnsserver.NetworkAny), DNSCryptProviderName: n.crypt.ProviderName, DNSCryptResolverCert: cert})
+	}).(*dnsserver.ServerDNSCrypt)
+	n.crypt.ServerAddr = n.crypt.Srv.LocalUDPAddr().String()
 
 	cl := &dnscrypt.Client{Timeout: vc01Wait, Net: "tcp"}
 	n.cryptInfo, err = cl.DialStamp(dnsstamps.ServerStamp{
@@ -268,14 +321,25 @@ func vc01IsSentinel(m *dns.Msg, id uint16) bool {
 // something else has arrived; then a short grace.  enc / dec wrap the payloads
 // (identity for plain DNS, DNSCrypt otherwise).
 func vc01Datagram(addr string, input []byte, expectReply bool, enc func([]byte) ([]byte, error), dec func([]byte) ([]byte, error)) (r ref.Result, err error) {
+	expect := 0
+	if expectReply {
+		expect = 1
+	}
+
+	return vc01Datagrams(addr, [][]byte{input}, expect, enc, dec)
+}
+
+// vc01Datagrams is vc01Datagram for several inputs sent back to back on the
+// same socket, of which expect must be answered.
+func vc01Datagrams(addr string, inputs [][]byte, expect int, enc func([]byte) ([]byte, error), dec func([]byte) ([]byte, error)) (r ref.Result, err error) {
 	c, err := net.Dial("udp", addr)
 	if err != nil {
 		return r, vc01Env("dialing udp: %w", err)
 	}
 	defer c.Close()
 
-	sw, sid := vc01Sentinel(input)
-	for _, w := range [][]byte{input, sw} {
+	sw, sid := vc01Sentinel(inputs[0])
+	for _, w := range append(append([][]byte{}, inputs...), sw) {
 		b, eerr := enc(w)
 		if eerr != nil {
 			return r, fmt.Errorf("harness: encoding datagram: %w", eerr)
@@ -290,7 +354,7 @@ func vc01Datagram(addr string, input []byte, expectReply bool, enc func([]byte) 
 	deadline := time.Now().Add(vc01Wait)
 	sentinels := 0
 	for {
-		waiting := sentinels == 0 || (expectReply && len(r.Msgs) == 0)
+		waiting := sentinels == 0 || len(r.Msgs) < expect
 		if waiting {
 			_ = c.SetReadDeadline(deadline)
 		} else {
@@ -330,11 +394,30 @@ func vc01Identity(b []byte) ([]byte, error) { return b, nil }
 // vc01Stream writes one framed input on conn, half-closes, and reads frames
 // until the server closes.  closeWrite half-closes the connection.
 func vc01Stream(conn net.Conn, closeWrite func() error, payload []byte, dec func([]byte) ([]byte, error)) (r ref.Result, err error) {
+	return vc01StreamRaw(conn, closeWrite, vc01Frame(payload), 0, dec)
+}
+
+func vc01Frame(payload []byte) []byte {
+	return append(binary.BigEndian.AppendUint16(nil, uint16(len(payload))), payload...)
+}
+
+// vc01StreamRaw writes out (in two segments if 0 < split < len(out)),
+// half-closes, and reads frames until the server closes.
+func vc01StreamRaw(conn net.Conn, closeWrite func() error, out []byte, split int, dec func([]byte) ([]byte, error)) (r ref.Result, err error) {
 	defer conn.Close()
 
 	_ = conn.SetDeadline(time.Now().Add(vc01Wait))
-	out := binary.BigEndian.AppendUint16(nil, uint16(len(payload)))
-	if _, err = conn.Write(append(out, payload...)); err != nil {
+	if split > 0 && split < len(out) {
+		if _, err = conn.Write(out[:split]); err != nil {
+			return r, vc01Env("writing: %w", err)
+		}
+
+		// Let the first segment leave on its own.
+		time.Sleep(time.Millisecond)
+		out = out[split:]
+	}
+
+	if _, err = conn.Write(out); err != nil {
 		return r, vc01Env("writing: %w", err)
 	}
 
@@ -370,28 +453,47 @@ func vc01Stream(conn net.Conn, closeWrite func() error, payload []byte, dec func
 }
 
 func (n *vc01Net) tcp(addr string, payload []byte, dec func([]byte) ([]byte, error)) (r ref.Result, err error) {
+	return n.tcpRaw(addr, vc01Frame(payload), 0, dec)
+}
+
+func (n *vc01Net) tcpRaw(addr string, out []byte, split int, dec func([]byte) ([]byte, error)) (r ref.Result, err error) {
 	c, err := net.DialTimeout("tcp", addr, vc01Wait)
 	if err != nil {
 		return r, vc01Env("dialing tcp: %w", err)
 	}
 
-	return vc01Stream(c, c.(*net.TCPConn).CloseWrite, payload, dec)
+	return vc01StreamRaw(c, c.(*net.TCPConn).CloseWrite, out, split, dec)
 }
 
 func (n *vc01Net) dot(payload []byte) (r ref.Result, err error) {
+	return n.dotRaw(vc01Frame(payload), 0)
+}
+
+func (n *vc01Net) dotRaw(out []byte, split int) (r ref.Result, err error) {
 	d := &net.Dialer{Timeout: vc01Wait}
 	c, err := tls.DialWithDialer(d, "tcp", n.dotAddr, n.tlsClient.Clone())
 	if err != nil {
 		return r, vc01Env("dialing dot: %w", err)
 	}
 
-	return vc01Stream(c, c.CloseWrite, payload, vc01Identity)
+	return vc01StreamRaw(c, c.CloseWrite, out, split, vc01Identity)
 }
 
+// vc01NoLen hides the length of a body: HTTP/1.1 then uses chunked transfer
+// encoding, HTTP/2 and 3 send no content-length.
+type vc01NoLen struct{ io.Reader }
+
 func (n *vc01Net) http(cl *http.Client, scheme, method, target string, body []byte) (r ref.Result, ct string, err error) {
+	return n.httpBody(cl, scheme, method, target, body, false)
+}
+
+func (n *vc01Net) httpBody(cl *http.Client, scheme, method, target string, body []byte, chunked bool) (r ref.Result, ct string, err error) {
 	var rd io.Reader
 	if body != nil {
 		rd = bytes.NewReader(body)
+		if chunked {
+			rd = vc01NoLen{Reader: iotest.OneByteReader(rd)}
+		}
 	}
 
 	req, err := http.NewRequest(method, scheme+"://example.org"+target, rd)
@@ -423,6 +525,17 @@ func (n *vc01Net) http(cl *http.Client, scheme, method, target string, body []by
 }
 
 func (n *vc01Net) quic(wire []byte, prefix int) (r ref.Result, err error) {
+	rs, err := n.quicRaw([][]byte{append(binary.BigEndian.AppendUint16(nil, uint16(prefix)), wire...)})
+	if len(rs) == 1 {
+		r = rs[0]
+	}
+
+	return r, err
+}
+
+// quicRaw opens one stream per element of streams on one connection, writes
+// and finishes all of them, and only then reads the answers.
+func (n *vc01Net) quicRaw(streams [][]byte) (rs []ref.Result, err error) {
 	ctx, cancel := context.WithTimeout(context.Background(), vc01Wait)
 	defer cancel()
 
@@ -431,7 +544,7 @@ func (n *vc01Net) quic(wire []byte, prefix int) (r ref.Result, err error) {
 		if err != nil {
 			n.qconn = nil
 
-			return r, vc01Env("dialing doq: %w", err)
+			return nil, vc01Env("dialing doq: %w", err)
 		}
 	}
 
@@ -444,50 +557,61 @@ func (n *vc01Net) quic(wire []byte, prefix int) (r ref.Result, err error) {
 		return "", false
 	}
 
-	st, err := n.qconn.OpenStreamSync(ctx)
-	if err != nil {
-		n.qconn = nil
+	var sts []quic.Stream
+	rs = make([]ref.Result, len(streams))
+	for _, out := range streams {
+		st, oerr := n.qconn.OpenStreamSync(ctx)
+		if oerr != nil {
+			n.qconn = nil
 
-		return r, vc01Env("opening doq stream: %w", err)
-	}
-
-	_ = st.SetDeadline(time.Now().Add(vc01Wait))
-	out := binary.BigEndian.AppendUint16(nil, uint16(prefix))
-	_, werr := st.Write(append(out, wire...))
-	if werr == nil {
-		werr = st.Close()
-	}
-
-	if werr != nil {
-		n.qconn = nil
-		if tr, ok := treat(werr); ok {
-			r.Treatment = tr
-
-			return r, nil
+			return nil, vc01Env("opening doq stream: %w", oerr)
 		}
 
-		return r, vc01Env("writing doq stream: %w", werr)
-	}
-
-	all, rerr := io.ReadAll(st)
-	if rerr != nil {
-		n.qconn = nil
-		tr, ok := treat(rerr)
-		if !ok {
-			return r, vc01Env("reading doq stream: %w", rerr)
+		_ = st.SetDeadline(time.Now().Add(vc01Wait))
+		_, werr := st.Write(out)
+		if werr == nil {
+			werr = st.Close()
 		}
 
-		r.Treatment = tr
+		if werr != nil {
+			n.qconn = nil
+			tr, ok := treat(werr)
+			if !ok {
+				return nil, vc01Env("writing doq stream: %w", werr)
+			}
+
+			// The connection is gone; the other streams share the treatment.
+			for j := range rs {
+				rs[j].Treatment = tr
+			}
+
+			return rs, nil
+		}
+
+		sts = append(sts, st)
 	}
 
-	frames, ferr := ref.Frames(all)
-	if ferr != nil && rerr == nil {
-		return r, fmt.Errorf("DoQ stream is not a sequence of frames: %w", ferr)
+	for i, st := range sts {
+		all, rerr := io.ReadAll(st)
+		if rerr != nil {
+			n.qconn = nil
+			tr, ok := treat(rerr)
+			if !ok {
+				return nil, vc01Env("reading doq stream: %w", rerr)
+			}
+
+			rs[i].Treatment = tr
+		}
+
+		frames, ferr := ref.Frames(all)
+		if ferr != nil && rerr == nil {
+			return nil, fmt.Errorf("DoQ stream is not a sequence of frames: %w", ferr)
+		}
+
+		rs[i].Msgs = frames
 	}
 
-	r.Msgs = frames
-
-	return r, nil
+	return rs, nil
 }
 
 func (n *vc01Net) cryptEnc(wire []byte) ([]byte, error) {
@@ -514,11 +638,15 @@ func vc01PlainName(n string) bool {
 		}
 	}
 
-	return n != "" && n != "."
+	return n != ""
 }
 
-func vc01JSONTarget(q dns.Question, cd, do, mnemonic, wireCT bool) string {
+func vc01JSONTarget(q dns.Question, cd, do, mnemonic, wireCT bool, decoy []byte) string {
 	v := url.Values{}
+	if decoy != nil {
+		v.Set("dns", base64.RawURLEncoding.EncodeToString(decoy))
+	}
+
 	v.Set("name", q.Name)
 	ts := strconv.Itoa(int(q.Qtype))
 	if s, ok := dns.TypeToString[q.Qtype]; ok && mnemonic && s == strings.ToUpper(s) {
@@ -626,7 +754,7 @@ func vc01SocketCase(t *rapid.T, st *vstat.Stats, n *vc01Net, in ref.Input) {
 	}
 
 	expectsReply := func(tr ref.Transport) bool {
-		k, _ := c.Expect(tr)
+		k, _, _ := c.Expect(tr)
 
 		return k == ref.MustReply
 	}
@@ -644,26 +772,51 @@ func vc01SocketCase(t *rapid.T, st *vstat.Stats, n *vc01Net, in ref.Input) {
 		foreignOnly("udp", ref.Classify(wire[:dns.MinMsgSize]), r, err)
 	}
 
-	r, err := vc01Attempt(func() (ref.Result, error) { return n.tcp(n.tcpAddr, wire, vc01Identity) })
+	// The frame leaves in one segment or in two, cut at a drawn offset (inside
+	// the length prefix, right after it, inside the message).
+	split := rapid.SampledFrom([]int{0, 0, 1, 2, 3, 14, len(wire) + 1}).Draw(t, "tcpSplit")
+	if split > 0 {
+		classes = append(classes, "tcp-split-write")
+	}
+
+	r, err := vc01Attempt(func() (ref.Result, error) { return n.tcpRaw(n.tcpAddr, vc01Frame(wire), split, vc01Identity) })
 	judge(ref.TCP, c, r, err, ref.CheckOpts{}, true)
-	r, err = vc01Attempt(func() (ref.Result, error) { return n.dot(wire) })
+	r, err = vc01Attempt(func() (ref.Result, error) { return n.dotRaw(vc01Frame(wire), split) })
 	judge(ref.DoT, c, r, err, ref.CheckOpts{}, true)
 
-	get := dnsserver.PathDoH + "?dns=" + base64.RawURLEncoding.EncodeToString(wire)
+	// A decoy is another, acceptable query offered through the parameters of
+	// the encodings that are NOT in use; it must be ignored.
+	decoyMsg := (&dns.Msg{}).SetQuestion("k0.decoy.test.", dns.TypeAAAA)
+	decoyMsg.Id = 0xdec0
+	decoyWire, _ := decoyMsg.Pack()
+	b64 := base64.RawURLEncoding.EncodeToString
+	decoy := rapid.Bool().Draw(t, "dohDecoy")
+	chunked := rapid.Bool().Draw(t, "chunkedBody")
+	get, post := dnsserver.PathDoH+"?dns="+b64(wire), dnsserver.PathDoH
+	if decoy {
+		classes = append(classes, "doh-decoy-params")
+		get += "&name=k0.decoy.test&type=AAAA&ct=" + url.QueryEscape(dnsserver.MimeTypeJSON) + "&do=1"
+		post += "?dns=" + b64(decoyWire) + "&name=k0.decoy.test"
+	}
+
+	if chunked {
+		classes = append(classes, "doh-body-without-length")
+	}
+
 	r, err = vc01Attempt(func() (ref.Result, error) {
 		r, _, err := n.http(n.h2, "https", http.MethodGet, get, nil)
 		return r, err
 	})
 	judge(ref.DoH.Named("doh-h2-get"), c, r, err, ref.CheckOpts{}, true)
 	r, err = vc01Attempt(func() (ref.Result, error) {
-		r, _, err := n.http(n.h2, "https", http.MethodPost, dnsserver.PathDoH, wire)
+		r, _, err := n.httpBody(n.h2, "https", http.MethodPost, post, wire, chunked)
 
 		return r, err
 	})
 	judge(ref.DoH.Named("doh-h2-post"), c, r, err, ref.CheckOpts{}, true)
 	if rapid.Bool().Draw(t, "h1Post") {
 		r, err = vc01Attempt(func() (ref.Result, error) {
-			r, _, err := n.http(n.h1, "http", http.MethodPost, dnsserver.PathDoH, wire)
+			r, _, err := n.httpBody(n.h1, "http", http.MethodPost, post, wire, chunked)
 
 			return r, err
 		})
@@ -675,7 +828,7 @@ func vc01SocketCase(t *rapid.T, st *vstat.Stats, n *vc01Net, in ref.Input) {
 
 	if vstat.Thorough() || rapid.IntRange(0, 7).Draw(t, "h3") == 0 {
 		r, err = vc01Attempt(func() (ref.Result, error) {
-			r, _, err := n.http(n.h3, "https", http.MethodPost, dnsserver.PathDoH, wire)
+			r, _, err := n.httpBody(n.h3, "https", http.MethodPost, post, wire, chunked)
 
 			return r, err
 		})
@@ -699,6 +852,198 @@ func vc01SocketCase(t *rapid.T, st *vstat.Stats, n *vc01Net, in ref.Input) {
 
 		if len(r.Msgs) != 0 || r.Treatment != ref.DoQProtocolError {
 			fail("doq", fmt.Errorf("length prefix %d for %d octets: %d messages came back, treatment %q", prefix, len(wire), len(r.Msgs), r.Treatment))
+		}
+	}
+
+	// Fault forms of the framing layers: whatever the content, no DNS message
+	// may come back.
+	fault := rapid.SampledFrom([]string{"", "", "", "tcp-short-frame", "tcp-empty-frame", "doq-two-in-one", "doh-two-dns-params", "doh-bad-method"}).Draw(t, "streamFault")
+	noMsg := func(tr string, r ref.Result, err error, wantTreatment string) {
+		classes = append(classes, fault)
+		if err != nil {
+			fail(tr, err)
+		}
+
+		if len(r.Msgs) != 0 || !strings.HasPrefix(r.Treatment, wantTreatment) {
+			fail(tr, fmt.Errorf("%s: %d messages came back, treatment %q (want %q...)", fault, len(r.Msgs), r.Treatment, wantTreatment))
+		}
+	}
+
+	switch fault {
+	case "tcp-short-frame":
+		short := binary.BigEndian.AppendUint16(nil, uint16(len(wire)+1+int(ref.Hash(string(wire))%300)))
+		r, err = vc01Attempt(func() (ref.Result, error) { return n.tcpRaw(n.tcpAddr, append(short, wire...), split, vc01Identity) })
+		noMsg("tcp", r, err, "closed")
+	case "tcp-empty-frame":
+		r, err = vc01Attempt(func() (ref.Result, error) { return n.dotRaw([]byte{0, 0}, 0) })
+		noMsg("dot", r, err, "closed")
+	case "doq-two-in-one":
+		// RFC 9250, 4.3 (3): more than one query on a stream.
+		r, err = vc01Attempt(func() (ref.Result, error) {
+			rs, err := n.quicRaw([][]byte{append(vc01Frame(wire), vc01Frame(decoyWire)...)})
+			if err != nil {
+				return ref.Result{}, err
+			}
+
+			return rs[0], nil
+		})
+		noMsg("doq", r, err, ref.DoQProtocolError)
+	case "doh-two-dns-params":
+		r, err = vc01Attempt(func() (ref.Result, error) {
+			r, _, err := n.http(n.h2, "https", http.MethodGet, dnsserver.PathDoH+"?dns="+b64(decoyWire)+"&dns="+b64(wire), nil)
+
+			return r, err
+		})
+		noMsg("doh-h2-get", r, err, "http-4")
+	case "doh-bad-method":
+		r, err = vc01Attempt(func() (ref.Result, error) {
+			r, _, err := n.http(n.h1, "http", http.MethodPut, dnsserver.PathDoH+"?dns="+b64(decoyWire), decoyWire)
+
+			return r, err
+		})
+		noMsg("doh-h1-put", r, err, "http-4")
+	}
+
+	// Two queries in flight on the same connection / socket: the input and a
+	// near miss of it (exactly one component differs, or nothing but the ID).
+	if in.Gen == "valid" && rapid.Bool().Draw(t, "pipelinePair") {
+		m2, what := ref.DrawNearMiss(t, in.Msg)
+		if m2.Id != in.Msg.Id {
+			// Out of the range of the burst's IDs (base+1 .. base+6).
+			m2.Id = in.Msg.Id + 100
+		}
+		w2, perr := m2.Pack()
+		if perr != nil {
+			t.Fatalf("harness: near miss does not pack: %v", perr)
+		}
+
+		cs := []*ref.Case{c, ref.Classify(w2)}
+		classes = append(classes, "pipelined-near-miss", "near-miss-"+what)
+		match := func(tr ref.Transport, cs []*ref.Case, r ref.Result, err error) {
+			if err != nil {
+				fail(tr.Name, err)
+			}
+
+			must := func(i int) bool { k, _, _ := cs[i].Expect(tr); return k == ref.MustReply }
+			merr := ref.MatchReplies(len(cs), r.Msgs, must, func(i int, msg []byte) error {
+				_, _, jerr := ref.Judge(tr, cs[i], ref.Result{Msgs: [][]byte{msg}}, ref.CheckOpts{})
+
+				return jerr
+			})
+			if merr != nil {
+				fail(tr.Name, fmt.Errorf("%d queries pipelined, first near miss (%s) %s:\n%w", len(cs), what, ref.Hex(w2), merr))
+			}
+
+			classes = append(classes, tr.Name+":pair")
+		}
+
+		// More near misses for a burst on one connection / socket: only those
+		// that must be answered there (an unanswered query closes a stream
+		// connection under its neighbours) and, for UDP, fit the receive buffer.
+		streamCases, dgramCases := []*ref.Case{}, []*ref.Case{}
+		burst, _ := ref.DrawBurst(t, in.Msg, 6)
+		for _, bc := range append([]*ref.Case{c, cs[1]}, func() (out []*ref.Case) {
+			for _, bm := range burst {
+				bw, berr := bm.Pack()
+				if berr != nil {
+					t.Fatalf("harness: near miss does not pack: %v", berr)
+				}
+
+				out = append(out, ref.Classify(bw))
+			}
+
+			return out
+		}()...) {
+			if k, _, _ := bc.Expect(ref.TCP); k == ref.MustReply {
+				streamCases = append(streamCases, bc)
+			}
+
+			if len(bc.Wire) <= dns.MinMsgSize {
+				dgramCases = append(dgramCases, bc)
+			}
+		}
+
+		both := func(tr ref.Transport) bool {
+			k1, _, _ := cs[0].Expect(tr)
+			k2, _, _ := cs[1].Expect(tr)
+
+			return k1 == ref.MustReply && k2 == ref.MustReply
+		}
+
+		psplit := rapid.SampledFrom([]int{0, 1, len(wire) + 2, len(wire) + 3}).Draw(t, "pairSplit")
+		if len(streamCases) >= 2 {
+			var stream []byte
+			for _, bc := range streamCases {
+				stream = append(stream, vc01Frame(bc.Wire)...)
+			}
+
+			r, err = vc01Attempt(func() (ref.Result, error) { return n.tcpRaw(n.tcpAddr, stream, psplit, vc01Identity) })
+			match(ref.TCP, streamCases, r, err)
+			r, err = vc01Attempt(func() (ref.Result, error) { return n.dotRaw(stream, psplit) })
+			match(ref.DoT, streamCases, r, err)
+		}
+
+		if len(dgramCases) >= 2 {
+			expect := 0
+			var wires [][]byte
+			for _, cc := range dgramCases {
+				wires = append(wires, cc.Wire)
+				if k, _, _ := cc.Expect(ref.UDP); k == ref.MustReply {
+					expect++
+				}
+			}
+
+			r, err = vc01Attempt(func() (ref.Result, error) {
+				return vc01Datagrams(n.udpAddr, wires, expect, vc01Identity, vc01Identity)
+			})
+			match(ref.UDP, dgramCases, r, err)
+		}
+
+		if both(ref.DoQ) {
+			var rs []ref.Result
+			_, err = vc01Attempt(func() (ref.Result, error) {
+				var qerr error
+				rs, qerr = n.quicRaw([][]byte{vc01Frame(wire), vc01Frame(w2)})
+
+				return ref.Result{}, qerr
+			})
+			if err != nil {
+				fail("doq", err)
+			}
+
+			for i, cc := range cs {
+				if _, _, jerr := ref.Judge(ref.DoQ, cc, rs[i], ref.CheckOpts{}); jerr != nil {
+					fail("doq", fmt.Errorf("stream %d of 2 in flight, near miss (%s) %s:\n%w", i+1, what, ref.Hex(w2), jerr))
+				}
+			}
+
+			classes = append(classes, "doq:pair")
+		}
+
+		if both(ref.DoH) {
+			// Two concurrent requests on the one HTTP/2 connection.
+			var r2 ref.Result
+			var err2 error
+			done := make(chan struct{})
+			go func() {
+				defer close(done)
+
+				r2, err2 = vc01Attempt(func() (ref.Result, error) {
+					r, _, err := n.http(n.h2, "https", http.MethodPost, dnsserver.PathDoH, w2)
+
+					return r, err
+				})
+			}()
+
+			r, err = vc01Attempt(func() (ref.Result, error) {
+				r, _, err := n.http(n.h2, "https", http.MethodGet, dnsserver.PathDoH+"?dns="+b64(wire), nil)
+
+				return r, err
+			})
+			<-done
+			judge(ref.DoH.Named("doh-h2-get"), cs[0], r, err, ref.CheckOpts{}, false)
+			judge(ref.DoH.Named("doh-h2-post"), cs[1], r2, err2, ref.CheckOpts{}, false)
+			classes = append(classes, "doh-h2:pair")
 		}
 	}
 
@@ -750,9 +1095,17 @@ func vc01SocketCase(t *rapid.T, st *vstat.Stats, n *vc01Net, in ref.Input) {
 		}
 
 		classes = append(classes, "json")
+		var jsonDecoy, jsonBody []byte
+		if decoy {
+			jsonDecoy = decoyWire
+			if method == http.MethodPost {
+				jsonBody = decoyWire
+			}
+		}
+
 		var ct string
 		r, err = vc01Attempt(func() (r ref.Result, err error) {
-			r, ct, err = n.http(cl, scheme, method, vc01JSONTarget(q, cd, do, mn, false), nil)
+			r, ct, err = n.httpBody(cl, scheme, method, vc01JSONTarget(q, cd, do, mn, false, jsonDecoy), jsonBody, chunked)
 
 			return r, err
 		})
@@ -787,7 +1140,7 @@ func vc01SocketCase(t *rapid.T, st *vstat.Stats, n *vc01Net, in ref.Input) {
 		}
 
 		r, err = vc01Attempt(func() (r ref.Result, err error) {
-			r, _, err = n.http(cl, scheme, method, vc01JSONTarget(q, cd, do, mn, true), nil)
+			r, _, err = n.httpBody(cl, scheme, method, vc01JSONTarget(q, cd, do, mn, true, jsonDecoy), jsonBody, chunked)
 
 			return r, err
 		})
@@ -806,6 +1159,10 @@ func vc01SocketCase(t *rapid.T, st *vstat.Stats, n *vc01Net, in ref.Input) {
 		classes = append(classes, "survival-probe")
 	}
 
+	if errs := n.metrics.take(); len(errs) > 0 {
+		fail("metrics/disposer", fmt.Errorf("%s", strings.Join(errs, "\n")))
+	}
+
 	st.Case("", classes...)
 	if st.WantSample() && c.NonTrivial() && c.Verdict != ref.VAccept {
 		st.Sample(map[string]any{"gen": in.Gen, "wire": ref.Hex(wire), "verdict": ref.VerdictNames[c.Verdict], "classes": classes})
@@ -814,15 +1171,20 @@ func vc01SocketCase(t *rapid.T, st *vstat.Stats, n *vc01Net, in ref.Input) {
 
 func TestVerifC01Sockets(t *testing.T) {
 	st := vstat.New("C01", "sockets",
-		"rapid inputs (structured valid queries, structured unacceptable messages, byte-level corruptions; see inpkg.accept) sent by real clients over loopback to servers started through dnsservertest: UDP, TCP, DoT, DoH h2 GET+POST, plain-HTTP/1.1 DoH, h3 (every case in thorough, 1/8 in quick), DoQ (correct and wrong length prefix), DNSCrypt UDP+TCP, JSON API and JSON with ct=dns-message; oracle = documented per-transport treatment + reference handler + pairwise agreement of complete answers + survival probe after unacceptable input; non-trivial = accepted query with non-empty / non-NOERROR / absent reference answer or unacceptable input >= 12 octets; distinct by (transport, wire bytes)",
+		"rapid inputs (structured valid queries, structured unacceptable messages, byte-level corruptions; see inpkg.accept) sent by real clients over loopback to servers started through dnsservertest: UDP, TCP, DoT, DoH h2 GET+POST, plain-HTTP/1.1 DoH, h3 (every case in thorough, 1/8 in quick), DoQ (correct and wrong length prefix), DNSCrypt UDP+TCP, JSON API and JSON with ct=dns-message; servers configured as the real stack does (poisoning disposer, reading metrics listener, deadline contexts, handler requiring ServerInfo/RequestInfo); TCP/DoT frames written in two segments at drawn offsets; POST bodies without content-length (chunked); decoy parameters of the other DoH encodings; framing faults (short / empty frame, two queries in one DoQ stream, two dns parameters, PUT); for half of the valid cases a near miss (one component changed) is sent pipelined with the input on one TCP and one DoT connection, one UDP socket, two DoQ streams in flight and two concurrent h2 requests, replies matched as a multiset; oracle = documented per-transport treatment + reference handler + pairwise agreement of complete answers + survival probe after unacceptable input; non-trivial = accepted query with non-empty / non-NOERROR / absent reference answer or unacceptable input >= 12 octets; distinct by (transport, wire bytes)",
 		"verdict-accept", "undecodable-past-header", "verdict-response-bit", "verdict-notimp", "verdict-formerr", "kind-handler-error",
 		"kind-silent", "kind-large", "truncated-on-udp", "cross-transport-compared", "json", "doq:no-message", "doq:must-reply",
 		"dnscrypt-udp:must-reply", "dnscrypt-tcp:must-reply", "doh-h2-get:must-reply", "doh-h2-post:must-reply", "dot:must-reply",
-		"udp:no-message", "tcp:no-message", "survival-probe", "mixed-case-name", "max-length-name")
+		"udp:no-message", "tcp:no-message", "survival-probe", "mixed-case-name", "max-length-name",
+		"pipelined-near-miss", "tcp:pair", "dot:pair", "udp:pair", "doq:pair", "doh-h2:pair", "tcp-split-write", "doh-body-without-length",
+		"doh-decoy-params", "req-padding+keepalive", "root-name", "doq:fallback-servfail")
 	st.Finish(t)
 
 	n := vc01Start(t)
 	rapid.Check(t, func(t *rapid.T) {
 		vc01SocketCase(t, st, n, ref.DrawInput(t))
 	})
+	if errs := n.metrics.take(); len(errs) > 0 {
+		t.Fatalf("metrics/disposer after the last case: %s", strings.Join(errs, "\n"))
+	}
 }
